@@ -28,6 +28,7 @@ type loopScenario struct {
 	ID     int
 	Events map[int64][]int64
 	Steps  []relayrig.Step
+	Cosmos bool // the relayer's Cosmos listener runs next to the Ethereum one on the same LevelDB
 	Obs    loopObs
 }
 
@@ -73,7 +74,7 @@ func (sc loopScenario) JSON() map[string]interface{} {
 // genLoopScenario: a header schedule with gaps, repeats, bursts and an occasional older header; burn/lock events
 // placed in blocks around the confirmation boundary; log-query failures; kills at the points of one iteration.
 func genLoopScenario(rng *chain.Rng, id int, maxEventRanges int) loopScenario {
-	sc := loopScenario{ID: id, Events: map[int64][]int64{}}
+	sc := loopScenario{ID: id, Events: map[int64][]int64{}, Cosmos: id%2 == 0}
 	head := int64(40 + rng.Intn(200))
 	if rng.Intn(4) == 0 {
 		head = int64(30 + rng.Intn(25)) // starts before block 50: negative ending blocks
@@ -157,7 +158,7 @@ func runLoopScenario(sc *loopScenario, workDir string) {
 	trace := filepath.Join(dir, "trace.txt")
 	start := 0
 	for seg := 0; seg < 8 && start < len(sc.Steps); seg++ {
-		rs := relayrig.Scenario{Events: sc.Events, Steps: sc.Steps, DBDir: filepath.Join(dir, "relayerdb"), Trace: trace, StartAt: start}
+		rs := relayrig.Scenario{Events: sc.Events, Steps: sc.Steps, DBDir: filepath.Join(dir, "relayerdb"), Trace: trace, StartAt: start, Cosmos: sc.Cosmos}
 		bz, _ := json.Marshal(rs)
 		scf := filepath.Join(dir, fmt.Sprintf("segment%d.json", seg))
 		_ = os.WriteFile(scf, bz, 0o644)
